@@ -139,7 +139,7 @@ class World:
 
 
 def op_data(op: dict, tag: str):
-    ctl = DropCtl(tag, fail_keys=op.get("fail_keys") or ())
+    ctl = DropCtl(tag, fail_keys=op.get("fail_keys") or (), exc=op.get("fail_exc", "InjectedFault"))
     d = wrap_data(op["data"], op.get("drops") or {"mode": "all"}, ctl)
     if op.get("catalog"):
         d["translations"] = worlds.Catalog()
@@ -462,6 +462,8 @@ def gen_plan(seed: int, tier: str) -> dict:
         if rng.random() < 0.15:
             cands = _data_keys(data) or list(FAIL_KEYS)
             op["fail_keys"] = rng.sample(cands, min(len(cands), rng.randint(1, 2)))
+            op["fail_exc"] = rng.choice(["InjectedFault", "InjectedFault", "KeyError", "IndexError", "TypeError",
+                                         "LiquidTypeError", "UndefinedError"])
         if kind != "render":
             op["partials"] = rng.random() < 0.8
         op["catalog"] = rng.random() < 0.5
